@@ -679,13 +679,76 @@ fn after_cache_rollover(run: &Run) {
     }
 }
 
+
+/// A first delivery whose disk write fails (a directory squats on the record's file name; the fault is gone
+/// afterwards). What the node *serves at rest* must never go backwards: whatever it serves once everything has settled
+/// stays at least that — through 30 unrelated records (the read cache rolls over) and a later, older delivery. A node
+/// that serves nothing after the failed write may take the older version as its first; a node that goes on serving the
+/// version whose write failed must not lose it again.
+fn after_failed_first_write(run: &Run) {
+    for fam in [scratchpad_family(), transaction_family(), register_family()] {
+        let fam = Arc::new(fam);
+        let mut sys = SeqSys::new(fam.clone());
+        let mut auth: Vec<usize> = (0..fam.items.len()).filter(|i| fam.items[*i].authentic && !fam.items[*i].alien).collect();
+        auth.sort_by_key(|i| (fam.items[*i].counter, fam.items[*i].entries.len(), *i));
+        // the newest version first, the oldest later (for the set families: two different entries)
+        let (first, later) = match fam.family {
+            Family::Scratchpad => (*auth.last().unwrap(), auth[0]),
+            _ => (auth[1], auth[0]),
+        };
+        let squat = sys.scratch.join("record_store").join(hex::encode(fam.key.as_ref()));
+        std::fs::create_dir_all(&squat).expect("squat");
+        let r1 = sys.apply(&Deliver { item: first, name: fam.items[first].name.clone(), path: Path::Replicated });
+        sys.rig.settle();
+        let _ = std::fs::remove_dir(&squat);
+        if squat.exists() {
+            run.machinery_error("C07: the squatting directory could not be removed again");
+        }
+        let o1 = observe(&mut sys.rig, &fam);
+        for n in 0..30u32 {
+            let c = rec::chunk(format!("c07 failed-write filler {n}").as_bytes());
+            let (node, r) = (sys.rig.node.clone(), rec::chunk_record(&c));
+            let _ = sys.rig.run("filler", async move { node.store_replicated_in_record(r).await });
+        }
+        let o2 = observe(&mut sys.rig, &fam);
+        let r3 = sys.apply(&Deliver { item: later, name: fam.items[later].name.clone(), path: Path::Replicated });
+        sys.rig.settle();
+        let o3 = observe(&mut sys.rig, &fam);
+        let desc = json!({"engine": "directed", "family": format!("{:?}", fam.family), "history": [format!("{} delivered while the record's file cannot be written ({r1:?})", fam.items[first].name), "30 unrelated chunks".to_string(), format!("{} delivered ({r3:?})", fam.items[later].name)], "served_at_rest": [format!("{o1:?}"), format!("{o2:?}"), format!("{o3:?}")]});
+        run.case(desc.to_string().as_bytes(), true);
+        run.outcome(format!("failed-first-write:{:?}:{}", fam.family, o1 == Held::Nothing).as_bytes());
+        let not_below = |a: &Held, b: &Held| -> bool {
+            // b is at least a
+            match (a, b) {
+                (Held::Nothing, _) => true,
+                (Held::Pad { counter: x, .. }, Held::Pad { counter: y, .. }) => y >= x,
+                (Held::Set(x), Held::Set(y)) => x.is_subset(y),
+                _ => false,
+            }
+        };
+        for (from, to, what) in [(&o1, &o2, "after 30 unrelated records"), (&o1, &o3, "after the older delivery"), (&o2, &o3, "after the older delivery")] {
+            if !not_below(from, to) {
+                run.violation("never-regresses", "after-a-failed-first-write", format!("{:?}: the node served {from:?} at rest and serves {to:?} {what} ({desc})", fam.family), desc.clone());
+                break;
+            }
+        }
+        for o in [&o1, &o2, &o3] {
+            let mut fails = vec![];
+            safety(&fam, o, &mut fails, "after a failed first write");
+            for f in fails {
+                run.violation(&f.clause, &f.trigger, f.what, desc.clone());
+            }
+        }
+    }
+}
+
 pub fn main(tier: Option<&str>) {
     let run = Run::new("C07", "model_checking", tier);
     run.rule(
         "(seq) BFS, replay mode: deliveries of every item of a family (scratchpads: counters 1..3 x {owner-signed, owner-signed with other content (counters 1, 2), other key, unsigned, foreign \
          owner under this key}; transactions: every vector of <=2 distinct entries (both orders) of a 5-entry pool incl. badly signed and foreign; registers: all 8 op subsets + forged; plus, against held content, a valid record of the *other* kind that shares the key (a scratchpad and a transaction set of one owner hash the same public key) \
          base) via {replication, unpaid update, paid upload} to one real Node, each run to quiescence; state = (held value, reference). \
-         (rollover) per family two authentic deliveries, then 30 unrelated chunks so that the 25-entry read cache forgets the record, then the read and a re-delivery. (conc) every ordered pair of authentic single deliveries to one key, with and without prior content, both futures live: \
+         (rollover) per family two authentic deliveries, then 30 unrelated chunks so that the 25-entry read cache forgets the record, then the read and a re-delivery; (failed first write) per family the newest version delivered while the record's file cannot be written, 30 unrelated chunks, the oldest version: what the node serves at rest never goes backwards. (conc) every ordered pair of authentic single deliveries to one key, with and without prior content, both futures live: \
          stateless DFS over all interleavings of future polls / command handling / write and notification tasks with <=1(2) deviations from FIFO.",
     );
     run.assume("paid uploads use an always-paying contract stub (payment conditions are C03's subject)");
@@ -705,5 +768,6 @@ pub fn main(tier: Option<&str>) {
         conc_pairs(&run, fam.clone(), bound);
     }
     after_cache_rollover(&run);
+    after_failed_first_write(&run);
     run.finish();
 }
